@@ -51,6 +51,7 @@ package pipeline
 //@   ensures held == 0
 //@   ghost g_undec bool = false
 //@   ensures result == 0 ==> !ok || g_undec || (g_so > 0 && offsets.current < g_so) || g_spam || g_pass0
+//@   ensures g_undec ==> result == 0
 //@   callee AddFieldNoAlloc(root, name) (n)
 //@     requires g_clean || dec == decoder.JSON || dec == decoder.PROTOBUF
 //@     pure
